@@ -36,14 +36,15 @@ theorem Ok.mono {α : Type} {m : Except (Err toks) (α × PState toks)}
 /-- the token `sp` was consumed between `st` and `st'` -/
 def Tok (st : PState toks) (sp : Span) (st' : PState toks) : Prop :=
   sp.start = st.pos ∧ sp.stop = st'.prev ∧ sp.start ≤ sp.stop ∧ IsStart toks sp.start ∧
-    IsStop toks sp.stop ∧ st.prev ≤ st.pos ∧ st'.prev ≤ st'.pos
+    IsStop toks sp.stop ∧ st.prev ≤ st.pos ∧ st'.prev ≤ st'.pos ∧ st'.rem.length < st.rem.length
 
 /-- nothing was consumed between `st` and `st'` -/
-def Same (st st' : PState toks) : Prop := st'.pos = st.pos ∧ st'.prev = st.prev
+def Same (st st' : PState toks) : Prop :=
+  st'.pos = st.pos ∧ st'.prev = st.prev ∧ st'.rem.length = st.rem.length
 
 theorem same_of_eq {st st' : PState toks} (h1 : st'.cur = st.cur) (h2 : st'.rem = st.rem) : Same st st' := by
   unfold Same PState.pos PState.prev PState.pre
-  rw [h1, h2]; exact ⟨rfl, rfl⟩
+  rw [h1, h2]; exact ⟨rfl, rfl, rfl⟩
 
 theorem same_pushIf (st : PState toks) (add : Bool) (e : Expected) : Same st (st.pushIf add e) := by
   unfold PState.pushIf PState.push
@@ -58,7 +59,8 @@ include hord
 theorem tok_of_advance {st st' : PState toks} (h : st.advance = .ok st') : Tok st st.cur.span st' := by
   have hr := (advance_spec h).1
   refine ⟨rfl, (prev_of_rem hr).symm, st.pos_le_stop hord, ⟨st.cur, st.cur_mem, rfl⟩,
-    ⟨st.cur, st.cur_mem, rfl⟩, st.prev_le_pos hord, st'.prev_le_pos hord⟩
+    ⟨st.cur, st.cur_mem, rfl⟩, st.prev_le_pos hord, st'.prev_le_pos hord, ?_⟩
+  rw [hr]; simp
 
 def EatPost (st : PState toks) : Option Span → PState toks → Prop
   | some sp, st' => Tok st sp st'
